@@ -54,9 +54,11 @@ def cases(tier, seed):
     budgets = [0, 1, 2, 3, 5, 10, 50, 300] if tier == "quick" else list(range(0, 11)) + [20, 50, 100, 300, 1000]
     nmat = 4 if tier == "quick" else 12
     idx = 0
+    late = ("hess_axis_subdiag", "tri_plus_one_subdiag", "hess_tiny_axis_subdiag", "block_upper_tri", "hollow_int")     # classes added by seeding rounds 9-10
     for cls in CLASSES:
         for k in range(nmat):
-            out.append({"kind": "matrix", "cls": cls, "idx": idx, "seed": seed, "maxn": maxn, "budgets": budgets})
+            bl = budgets if (cls not in late or tier != "quick") else [0, 2, 10, 300]          # fewer budgets in the quick tier (cost)
+            out.append({"kind": "matrix", "cls": cls, "idx": idx, "seed": seed, "maxn": maxn, "budgets": bl})
             idx += 1
     # size ladder: n beyond the default windows (12) and plausible panel widths (8 / 16); few budgets (cost)
     for n_ in ([13, 17] if tier == "quick" else [9, 12, 13, 14, 16, 17, 18, 20, 24, 26, 33]):
